@@ -14,4 +14,50 @@ def exchange (udp tcp : Bytes → Except Nat Bytes) (q : Bytes) : Except Nat Byt
   | .error e => (.error e, false)
   | .ok r => if tcBit r then (tcp q, true) else (.ok r, false)
 
+/-! ## Where the two halves connect ("to the same server")
+
+`NewUpstream`'s `udp` case builds one dial function for the UDP pipeline and one
+for the TCP retry. How each of them reaches the network is read from the source
+(T2 facts `c17UdpDialVia` / `c17TcpDialVia`). -/
+
+/-- How a dial function of the udp upstream connects. -/
+inductive DialVia where
+  /-- `dialer.DialContext(ctx, network, dialAddr)` -/
+  | direct
+  /-- through `newTcpDialer`: the SOCKS5 proxy when `Opt.Socks5` is set, else the address itself -/
+  | tcpHelper
+  | unknown
+  deriving DecidableEq, Repr
+
+def DialVia.ofFact : Option Nat → DialVia
+  | some 0 => .direct
+  | some 1 => .tcpHelper
+  | _ => .unknown
+
+/-- What the user configured, as far as routing goes. Endpoints are abstract
+(`Nat`): `server` is the host:port `parseDialAddr` computes from the URL / `dial_addr`
+(that computation is C18's subject), `socks5` is `Opt.Socks5` when non-empty. -/
+structure DialCfg where
+  server : Nat
+  socks5 : Option Nat
+  deriving Repr
+
+/-- The endpoint a dial function opens its connection to. -/
+def endpoint : DialVia → DialCfg → Option Nat
+  | .direct, c => some c.server
+  | .tcpHelper, c => some (c.socks5.getD c.server)
+  | .unknown, _ => none
+
+/-- One exchange of the upstream on a network in which every endpoint has its own
+UDP and TCP behaviour: each half talks to the endpoint its dial function connects to.
+Returns the outcome, whether TCP was used, and the endpoint the TCP side connected to. -/
+def exchangeRouted (exch : (Bytes → Except Nat Bytes) → (Bytes → Except Nat Bytes) → Bytes → Except Nat Bytes × Bool)
+    (udpVia tcpVia : DialVia) (c : DialCfg)
+    (udpNet tcpNet : Nat → Bytes → Except Nat Bytes) (q : Bytes) : Option (Except Nat Bytes × Bool × Option Nat) :=
+  match endpoint udpVia c, endpoint tcpVia c with
+  | some eu, some et =>
+    let (res, used) := exch (udpNet eu) (tcpNet et) q
+    some (res, used, if used then some et else none)
+  | _, _ => none
+
 end Model.C17
